@@ -1,5 +1,254 @@
-//! C03 - monitor not written yet.
+//! C03 - version order is a total preorder; the four operators are mutually
+//! consistent.  No reference model: the laws relate verdicts of the real
+//! code to each other, so the pool may leave every model's domain.
 
-use crate::fw::Cx;
+use crate::fw::{CaseResult, Cx, Ev};
+use crate::gen::version as gv;
+use crate::oracle::dewey::{Op, OPS};
+use crate::rng::{hash_strs, Rng};
+use pkgsrc::Pattern;
 
-pub fn run(_cx: &mut Cx) {}
+fn forbidden(c: char) -> bool {
+    matches!(c, '-' | '<' | '>' | '{' | '}')
+}
+
+fn wild_char(r: &mut Rng) -> char {
+    loop {
+        let c = match r.below(8) {
+            0..=2 => (0x20 + r.below(0x5f) as u32) as u8 as char,
+            3 => char::from_u32(0xa0 + r.below(0x60) as u32).unwrap(),
+            4 => char::from_u32(0x4e00 + r.below(0x100) as u32).unwrap(),
+            5 => char::from_u32(0x1f600 + r.below(0x40) as u32).unwrap(),
+            6 => *r.pick(&['\t', '\u{0}', '\u{7f}', '\u{85}', '\u{a0}', '\u{212a}', '\u{130}', 'ß']),
+            _ => (b'0' + r.below(10) as u8) as char,
+        };
+        if !forbidden(c) {
+            return c;
+        }
+    }
+}
+
+fn wild(r: &mut Rng) -> String {
+    let mut s = String::new();
+    match r.below(5) {
+        0 => {
+            // arbitrary text
+            for _ in 0..r.range(0, 8) {
+                s.push(wild_char(r));
+            }
+        }
+        1 => {
+            // very long digit runs (outside the 18-digit domain)
+            let n = r.range(19, 40);
+            for _ in 0..n {
+                s.push((b'0' + r.below(10) as u8) as char);
+            }
+            if r.chance(1, 2) {
+                s.push_str(&gv::v(r));
+            }
+        }
+        2 => {
+            // grammar version with wild characters sprinkled in
+            for c in gv::v(r).chars() {
+                if r.chance(1, 6) {
+                    s.push(wild_char(r));
+                }
+                s.push(c);
+            }
+        }
+        3 => {
+            s = format!("{}nb{}", gv::v(r), "9".repeat(r.range(17, 25)));
+        }
+        _ => s = gv::v(r),
+    }
+    if s.starts_with('=') {
+        s.insert(0, '0');
+    }
+    s
+}
+
+/// One-edit neighbour of an arbitrary string (no domain restrictions).
+fn wild_neighbour(r: &mut Rng, v: &str) -> String {
+    let mut c: Vec<char> = v.chars().collect();
+    match r.below(6) {
+        0 => c.extend(r.pick(&[".", ".0", "_", "pl", "alpha", "rc", "a", "1", "nb1", "é"]).chars()),
+        1 if !c.is_empty() => {
+            let i = r.below(c.len());
+            c.remove(i);
+        }
+        2 if !c.is_empty() => {
+            let i = r.below(c.len());
+            let x = c[i];
+            c.insert(i, x);
+        }
+        3 if !c.is_empty() => {
+            let i = r.below(c.len());
+            c[i] = wild_char(r);
+        }
+        4 => {
+            let i = r.below(c.len() + 1);
+            c.insert(i, wild_char(r));
+        }
+        _ => {
+            let i = r.below(c.len() + 1);
+            c.insert(i, (b'0' + r.below(10) as u8) as char);
+        }
+    }
+    c.into_iter().collect()
+}
+
+/// A pool: clusters of a seed string and its near neighbours.
+fn pool(r: &mut Rng, n: usize) -> Vec<String> {
+    let mut out: Vec<String> = vec![String::new()];
+    while out.len() < n {
+        let seed = if r.chance(1, 3) { wild(r) } else { gv::v(r) };
+        let k = r.range(4, 30).min(n - out.len());
+        out.push(seed.clone());
+        let mut cur = seed;
+        for _ in 1..k {
+            let nb = if gv::usable(&cur) { gv::neighbour(r, &cur, true) } else { wild_neighbour(r, &cur) };
+            let nb: String = nb.chars().filter(|c| !forbidden(*c)).collect();
+            let nb = if nb.starts_with('=') { format!("0{nb}") } else { nb };
+            out.push(nb.clone());
+            if r.chance(1, 3) {
+                cur = nb;
+            }
+        }
+    }
+    out.truncate(n);
+    out
+}
+
+struct Mats {
+    n: usize,
+    m: [Vec<bool>; 4], // indexed like OPS: Gt, Ge, Lt, Le ; m[op][i*n+j] = S_i op S_j
+}
+
+impl Mats {
+    fn get(&self, op: Op, i: usize, j: usize) -> bool {
+        let k = OPS.iter().position(|o| *o == op).unwrap();
+        self.m[k][i * self.n + j]
+    }
+}
+
+fn observe(ev: &mut Ev, s: &[String]) -> Result<Mats, crate::fw::Fail> {
+    let n = s.len();
+    let names: Vec<String> = s.iter().map(|v| format!("p-{v}")).collect();
+    let mut m: [Vec<bool>; 4] = [vec![false; n * n], vec![false; n * n], vec![false; n * n], vec![false; n * n]];
+    for j in 0..n {
+        for (k, op) in OPS.iter().enumerate() {
+            let text = format!("p{}{}", op.text(), s[j]);
+            let p = Pattern::new(&text).map_err(|e| format!("Pattern::new({text:?}) failed: {e}"))?;
+            for i in 0..n {
+                m[k][i * n + j] = p.matches(&names[i]);
+            }
+            ev.evals(n as u64);
+        }
+    }
+    Ok(Mats { n, m })
+}
+
+fn check_pool(ev: &mut Ev, s: &[String], two_bound_pairs: &[(usize, usize)]) -> CaseResult {
+    let mt = observe(ev, s)?;
+    let n = s.len();
+    let q = |i: usize| format!("{:?}", s[i]);
+    for i in 0..n {
+        if !mt.get(Op::Le, i, i) || !mt.get(Op::Ge, i, i) {
+            return Err(format!("reflexivity: A={} : A<=A is {}, A>=A is {}", q(i), mt.get(Op::Le, i, i), mt.get(Op::Ge, i, i)).into());
+        }
+        ev.count("law/reflexivity");
+        for j in 0..n {
+            let (lt, gt, le, ge) = (mt.get(Op::Lt, i, j), mt.get(Op::Gt, i, j), mt.get(Op::Le, i, j), mt.get(Op::Ge, i, j));
+            let eq = le && ge;
+            if (lt as u8) + (gt as u8) + (eq as u8) != 1 {
+                return Err(format!("trichotomy: A={} B={} : A<B={lt} A>B={gt} A<=B={le} A>=B={ge}", q(i), q(j)).into());
+            }
+            if le == gt || ge == lt {
+                return Err(format!("duality: A={} B={} : A<=B={le} A>B={gt} A>=B={ge} A<B={lt}", q(i), q(j)).into());
+            }
+            // side swap: "A<B" asked with B in the pattern == "B>A" asked with A in the pattern
+            if lt != mt.get(Op::Gt, j, i) || le != mt.get(Op::Ge, j, i) {
+                return Err(format!(
+                    "side-swap: A={} B={} : 'p<B' on p-A = {lt} but 'p>A' on p-B = {}; 'p<=B' on p-A = {le} but 'p>=A' on p-B = {}",
+                    q(i), q(j), mt.get(Op::Gt, j, i), mt.get(Op::Ge, j, i)
+                ).into());
+            }
+            ev.count("law/pair-laws");
+            if s[i] != s[j] {
+                ev.nontrivial(hash_strs(&[s[i].as_bytes(), s[j].as_bytes()]));
+                if eq {
+                    ev.count("pairs/equal-value-different-text");
+                }
+            }
+        }
+    }
+    // transitivity of <= over all triples, on the boolean matrix
+    let le = |i: usize, j: usize| mt.get(Op::Le, i, j);
+    let mut premises = 0u64;
+    for i in 0..n {
+        for j in 0..n {
+            if !le(i, j) {
+                continue;
+            }
+            for k in 0..n {
+                if le(j, k) {
+                    premises += 1;
+                    if !le(i, k) {
+                        return Err(format!("transitivity: A={} B={} C={} : A<=B and B<=C but not A<=C", q(i), q(j), q(k)).into());
+                    }
+                }
+            }
+        }
+    }
+    ev.add("law/transitivity-triples-checked", (n * n * n) as u64);
+    ev.add("law/transitivity-premises-true", premises);
+    ev.evals((n * n * n) as u64);
+    // two-bound patterns = conjunction of their halves
+    let names: Vec<String> = s.iter().map(|v| format!("p-{v}")).collect();
+    for &(a, c) in two_bound_pairs {
+        for (lo, hi) in [(Op::Gt, Op::Lt), (Op::Gt, Op::Le), (Op::Ge, Op::Lt), (Op::Ge, Op::Le)] {
+            let text = format!("p{}{}{}{}", lo.text(), s[a], hi.text(), s[c]);
+            let p = Pattern::new(&text).map_err(|e| format!("Pattern::new({text:?}) failed: {e}"))?;
+            for b in 0..n {
+                let got = p.matches(&names[b]);
+                let want = mt.get(lo, b, a) && mt.get(hi, b, c);
+                ev.eval();
+                if got != want {
+                    return Err(format!(
+                        "two-bound: {text:?} on {:?} = {got}, but its halves give {} and {}",
+                        names[b], mt.get(lo, b, a), mt.get(hi, b, c)
+                    ).into());
+                }
+                if want {
+                    ev.count("law/two-bound-true");
+                }
+            }
+            ev.count("law/two-bound-patterns");
+        }
+    }
+    let outside = s.iter().filter(|v| !gv::usable(v) || v.chars().any(|c| !c.is_ascii())).count();
+    ev.add("pool/strings", n as u64);
+    ev.add("pool/strings-outside-reference-domain", outside as u64);
+    Ok(())
+}
+
+pub fn run(cx: &mut Cx) {
+    cx.set_budget(1 << 26, 1 << 32);
+    for k in ["law/reflexivity", "law/pair-laws", "law/transitivity-premises-true", "law/two-bound-true", "pairs/equal-value-different-text", "pool/strings-outside-reference-domain"] {
+        cx.ev.require(k);
+    }
+    let (pools, size, tb) = cx.pick_tier((1usize, 14usize, 4usize), (2, 60, 20), (10, 160, 80), (24, 400, 300));
+    let mut r = cx.stream("pools");
+    for pi in 0..pools {
+        let s = pool(&mut r, size);
+        let pairs: Vec<(usize, usize)> = (0..tb).map(|_| (r.below(size), r.below(size))).collect();
+        cx.check(
+            || {
+                let mut show: Vec<&String> = s.iter().take(12).collect();
+                show.dedup();
+                format!("pool #{pi} of {} strings, e.g. {:?}", s.len(), show)
+            },
+            |ev| check_pool(ev, &s, &pairs),
+        );
+    }
+}
